@@ -264,8 +264,24 @@ def strip_defaults(real, model):
     return real, model
 
 
+import re
+_RAT = re.compile(r"^-?\d+(/\d+)?$")
+
+
+def _num(s):
+    """rational wire string -> nearest double (the model keeps decimal defaults such as 1e-3 exactly, the code as doubles)"""
+    return repr(float(Fraction(s))) if isinstance(s, str) and _RAT.match(s) else s
+
+
 def norm(x):
-    return json.loads(json.dumps(x, sort_keys=True))
+    def walk(o):
+        if isinstance(o, dict):
+            return {k: (_num(v) if k in ("v", "$n", "$q") else [_num(e) for e in v] if (k == "vs" and isinstance(v, list)) else walk(v))
+                    for k, v in o.items()}
+        if isinstance(o, list):
+            return [walk(v) for v in o]
+        return o
+    return walk(json.loads(json.dumps(x, sort_keys=True)))
 
 
 # ---------------------------------------------------------------- input generation
